@@ -72,6 +72,16 @@ func fits(w int, signed bool, lo, hi int64, sat bool) bool {
 // BinInt evaluates x op y for integer operands of equal shape (shifts: y may differ).
 // wrapped reports that the mathematical result may leave the type range.
 func BinInt(op token.Token, x, y *Int) (res *Int, wrapped bool) {
+	res, wrapped = binInt0(op, x, y)
+	// identities (x & mask, x % m with x already in range) hand back a copy of the operand, form included;
+	// everything else is a new number whose form is computed here
+	if res != nil && res.Lin == nil {
+		res.Lin = linBin(op, x, y, res, wrapped)
+	}
+	return res, wrapped
+}
+
+func binInt0(op token.Token, x, y *Int) (res *Int, wrapped bool) {
 	w, signed := x.W, x.Signed
 	d := Union(x.D, y.D)
 	tlo, thi := rangeOf(w, signed)
@@ -422,6 +432,25 @@ func shiftRight(x *Int, n uint, d Deps) *Int {
 
 // NotInt is ^x.
 func NotInt(x *Int) *Int {
+	r := notInt0(x)
+	r.Lin = nil
+	if a := linOf(x); a != nil && x.W < 62 {
+		// ^x == -x-1 (signed) == 2^W-1-x (unsigned)
+		l := linScale(a, -1)
+		if x.Signed {
+			l.K--
+		} else {
+			l.K += int64(1)<<uint(x.W) - 1
+		}
+		if !a.exact() {
+			l.Mod = a.modOf(x.W)
+		}
+		r.Lin = l
+	}
+	return r
+}
+
+func notInt0(x *Int) *Int {
 	bits := make([]Bit, x.W)
 	for i := range bits {
 		bits[i] = x.Bits[i].Not()
@@ -451,6 +480,12 @@ func NegInt(x *Int) (*Int, bool) {
 // ConvertInt converts x to the integer shape (w, signed).
 // truncated reports that the value may not be representable in the target.
 func ConvertInt(x *Int, w int, signed bool) (res *Int, truncated bool) {
+	res, truncated = convertInt0(x, w, signed)
+	res.Lin = linConvert(linOf(x), x, res, truncated)
+	return res, truncated
+}
+
+func convertInt0(x *Int, w int, signed bool) (res *Int, truncated bool) {
 	bits := make([]Bit, w)
 	ext := bit0
 	if x.Signed {
@@ -746,6 +781,31 @@ func JoinInt(t, f *Int, gate *Bit, extra Deps) *Int {
 	if t == f {
 		return t
 	}
+	r := joinInt0(t, f, gate, extra)
+	if r == t || r == f {
+		if t.VID == f.VID {
+			return r
+		}
+		r = r.clone()
+	}
+	if t.W == f.W {
+		l := linJoin(t, f, gate)
+		if r.Lin != l {
+			if r == t || r == f {
+				r = r.clone()
+			}
+			r.Lin = l
+		}
+	} else {
+		r.Lin = nil
+	}
+	return r
+}
+
+func joinInt0(t, f *Int, gate *Bit, extra Deps) *Int {
+	if t == f {
+		return t
+	}
 	if t.W != f.W {
 		return NewTopInt(t.W, t.Signed, Union3(t.D, f.D, extra))
 	}
@@ -823,6 +883,7 @@ func WidenInt(old, nw *Int, thresholds []int64) *Int {
 		return j
 	}
 	r := j.clone()
+	r.Lin = nil
 	// the known bits of the hull would pull the widened bound back: forget them
 	r.Bits = topBits(r.W)
 	tlo, thi := rangeOf(r.W, r.Signed)
